@@ -77,6 +77,7 @@ impl World for ListWorld {
 
 fn run_list(cfg: &Cfg, ops: &[Op], run: &mut Run) {
     tls::reset_history();
+    run.panic_prop = Some("C20");
     let k = cfg.k as usize;
     let mut nodes: Vec<Pin<Box<ListNode<u32>>>> = (0..k).map(|i| Box::pin(ListNode::new(i as u32))).collect();
     let addr = |nodes: &Vec<Pin<Box<ListNode<u32>>>>, i: usize| &*nodes[i] as *const ListNode<u32>;
@@ -308,6 +309,7 @@ impl World for HeapWorld {
 
 fn run_heap(cfg: &Cfg, ops: &[Op], run: &mut Run) {
     tls::reset_history();
+    run.panic_prop = Some("C20");
     let k = cfg.k as usize;
     let mut nodes: Vec<Pin<Box<HeapNode<Key>>>> = (0..k).map(|i| Box::pin(HeapNode::new(Key { key: 0, idx: i as u8 }))).collect();
     let addr = |nodes: &Vec<Pin<Box<HeapNode<Key>>>>, i: usize| &*nodes[i] as *const HeapNode<Key>;
